@@ -3,7 +3,9 @@
 //! ordering effects; deliberately failing leaves and ill-typed operands are mixed in.
 
 use crate::canon::V;
-use crate::env::{Setup, FN_NAMES, SHADOW_NAMES, UNBOUND_NAME, UNKNOWN_FN, VAR_NAMES};
+use crate::env::{
+    Setup, EXTRA_VAR_NAMES, FN_NAMES, SHADOW_NAMES, UNBOUND_NAME, UNKNOWN_FN, VAR_NAMES,
+};
 use crate::prog::{AOp, Bin, Expr, Un, ALL_AOP};
 use crate::rng::Rng;
 use evalexpr::Value;
@@ -48,6 +50,7 @@ pub fn pool(ty: Ty) -> Vec<V> {
             Value::Float(-0.25),
             Value::Float(2.0),
             Value::Float(0.0),
+            Value::Float(-0.0),
         ],
         Ty::Bool => vec![Value::Boolean(true), Value::Boolean(false)],
         Ty::Str => vec![
@@ -68,6 +71,25 @@ pub fn any_value(rng: &mut Rng) -> V {
     let ty = *rng.pick(&ALL_TY);
     let p = pool(ty);
     rng.pick(&p).clone()
+}
+
+/// Values that only the API can put into a context (not writable as literals): NaN, infinities,
+/// the empty and the one-element tuple, tuples holding NaN. Mixed into initial contexts and
+/// `set_value` operations.
+pub fn any_value_ext(rng: &mut Rng) -> V {
+    if rng.percent(85) {
+        return any_value(rng);
+    }
+    match rng.below(8) {
+        0 => Value::Float(f64::NAN),
+        1 => Value::Float(f64::INFINITY),
+        2 => Value::Float(-0.0),
+        3 => Value::Float(0.0),
+        4 => Value::Tuple(vec![]),
+        5 => Value::Tuple(vec![Value::Float(f64::NAN), Value::Int(1)]),
+        6 => Value::Tuple(vec![Value::Int(7)]),
+        _ => Value::Float(f64::NEG_INFINITY),
+    }
 }
 
 #[derive(Clone, Debug)]
@@ -167,6 +189,9 @@ impl<'a> Gen<'a> {
     }
 
     fn name(&mut self) -> String {
+        if self.rng.percent(6) {
+            return self.rng.pick(&EXTRA_VAR_NAMES).to_string();
+        }
         let names = self.names.clone();
         self.rng.pick(&names).clone()
     }
@@ -410,31 +435,60 @@ impl<'a> Gen<'a> {
             let arg = self.sub(ty, b, d);
             return self.call_behaviour("f", Some(*arg), ty);
         }
-        if common >= 26 && common < 29 && matches!(ty, Ty::Int | Ty::Float | Ty::Str | Ty::Bool) {
-            // a flat, left-leaning chain `t1 op t2 op ... op tn` of directly nested binary nodes
-            let n = self.rng.range(3, 12);
+        // productions that end the descent are skipped while a deep tree still has budget to spend
+        let descending = self.cfg.spiny && budget > 24;
+        if !descending && common >= 26 && common < 31 && matches!(ty, Ty::Int | Ty::Float | Ty::Str | Ty::Bool) {
+            // a flat, left-leaning chain `t1 op t2 op ... op tn` of directly nested binary nodes;
+            // half of them use one operator throughout; terms are sometimes ill-typed, failing or
+            // assigning (two faults in one chain: which one wins?)
+            let n = self.rng.range(3, 14);
             let ops: &[Bin] = match ty {
                 Ty::Int => &[Bin::Add, Bin::Sub, Bin::Mul],
                 Ty::Float => &[Bin::Add, Bin::Sub, Bin::Mul, Bin::Div],
                 Ty::Str => &[Bin::Add],
                 _ => &[Bin::And, Bin::Or],
             };
+            let single = if self.rng.percent(50) { Some(*self.rng.pick(ops)) } else { None };
             let mut acc = self.expr(ty, 2, 1);
             for _ in 1..n {
-                let op = *self.rng.pick(ops);
-                let term_budget = if self.rng.percent(70) { 2 } else { 3 };
-                let t = self.sub(ty, term_budget, 1);
+                let op = single.unwrap_or_else(|| *self.rng.pick(ops));
+                let t = match self.rng.below(100) {
+                    0..=7 => Box::new(self.failing_leaf()),
+                    8..=13 if self.cfg.nested_statements => {
+                        let name = self.name();
+                        let v = self.lit(ty);
+                        Box::new(Expr::Chain(vec![
+                            Expr::Assign(AOp::Assign, name, Box::new(v)),
+                            self.lit(ty),
+                        ]))
+                    },
+                    14..=21 => {
+                        let wrong = self.other_ty(ty);
+                        Box::new(self.expr(wrong, 2, 1))
+                    },
+                    _ => {
+                        let term_budget = if self.rng.percent(70) { 2 } else { 3 };
+                        self.sub(ty, term_budget, 1)
+                    },
+                };
                 acc = Expr::Bin(op, Box::new(acc), t);
             }
             return acc;
         }
-        if common == 29 && ty == Ty::Float {
+        if !descending && common == 31 {
+            // a dangling binary operator: the present operand must still be evaluated first
+            let op = *self.rng.pick(&crate::prog::ALL_BIN);
+            let t = self.any_ty();
+            let l = self.expr(t, b, d);
+            return Expr::Dangling(op, Box::new(l));
+        }
+        if !descending && common == 32 && ty == Ty::Float {
             // NaN / infinity arise only from operators
             let z = Box::new(Expr::Lit(Value::Float(0.0)));
             let num = if self.rng.percent(50) { z.clone() } else { Box::new(self.lit(Ty::Float)) };
             return Expr::Bin(Bin::Div, num, z);
         }
-        if common >= 23 && common < 26 {
+        if !descending && common >= 23 && common < 26 {
             // the same effectful expression twice as sibling operands (`e op e`, `(e, e)`): each
             // occurrence must be evaluated
             let e = match ty {
@@ -622,7 +676,12 @@ pub fn gen_setup(rng: &mut Rng) -> Setup {
     let mut vars = Vec::new();
     for n in VAR_NAMES {
         if rng.percent(60) {
-            vars.push((n.to_string(), any_value(rng)));
+            vars.push((n.to_string(), any_value_ext(rng)));
+        }
+    }
+    for n in EXTRA_VAR_NAMES {
+        if rng.percent(8) {
+            vars.push((n.to_string(), any_value_ext(rng)));
         }
     }
     let mut fns = Vec::new();
